@@ -55,15 +55,18 @@ class El:
         self.kind, self.binds, self.kids = kind, binds, kids
 
 
-def gen(rng, depth, names, cnt, active):
+def gen(rng, depth, names, cnt, active, path=()):
     """active: names locally bound by an enclosing element (a global define must not hit those)."""
-    kind = rng.choice(['define', 'define', 'gdefine', 'repeat', 'trepeat', 'tdefine', 'plain', 'usemacro', 'define2'])
+    kind = rng.choice(['define', 'define', 'gdefine', 'repeat', 'trepeat', 'tdefine', 'plain', 'usemacro', 'define2', 'lambda'])
     if kind == 'gdefine':
         cands = [n for n in names if n not in active]
         if not cands:
             kind = 'plain'
     if kind in ('define',):
-        binds = [(n, next(cnt)) for n in rng.sample(names, rng.randint(1, 2))]
+        binds = [(n, next(cnt) if rng.random() < .85 else None) for n in rng.sample(names, rng.randint(1, 2))]
+        same = [p for p in path if p[0] == 'define']
+        if same and rng.random() < .3:
+            binds = list(rng.choice(same)[1])      # the very same clause text as on an ancestor
     elif kind == 'define2':
         n = rng.choice(names)
         binds = [(n, next(cnt)), (n, next(cnt))]          # "n 1; n 2": later parts see (and here rebind) earlier ones
@@ -71,8 +74,18 @@ def gen(rng, depth, names, cnt, active):
         binds = [(n, next(cnt)) for n in rng.sample(cands, 1)]
     elif kind == 'repeat':
         binds = [(rng.choice(names), next(cnt))]
+        same = [p for p in path if p[0] == 'repeat']
+        if same and rng.random() < .3:
+            binds = list(rng.choice(same)[1])
     elif kind in ('trepeat', 'tdefine'):
         binds = [(n, next(cnt)) for n in rng.sample(names, 2)]
+    elif kind == 'lambda':
+        # an expression-local name (lambda parameter) equal to a template variable: must not affect anything else
+        binds = []
+        lam = rng.choice([n for n in names if n not in BUILTIN_NAMES] or ['q9'])
+        el = El(kind, binds, [gen(rng, depth + 1, names, cnt, set(active), path) for _ in range(rng.randint(0, 2))] if depth < 3 else [])
+        el.lam = lam
+        return el
     else:
         binds = []
     act2 = set(active)
@@ -80,14 +93,14 @@ def gen(rng, depth, names, cnt, active):
         act2 |= {n for n, v in binds}
     kids = []
     if depth < 3 and kind != 'usemacro':
-        kids = [gen(rng, depth + 1, names, cnt, act2) for _ in range(rng.randint(0, 2))]
+        kids = [gen(rng, depth + 1, names, cnt, act2, path + ((kind, tuple(binds)),)) for _ in range(rng.randint(0, 2))]
     return El(kind, binds, kids)
 
 
 def ser(n, names):
     a = ''
     if n.kind in ('define', 'define2'):
-        a = ' tal:define="%s"' % '; '.join('%s %d' % b for b in n.binds)
+        a = ' tal:define="%s"' % '; '.join('%s %s' % b for b in n.binds)
     elif n.kind == 'gdefine':
         a = ' tal:define="%s"' % '; '.join('global %s %d' % b for b in n.binds)
     elif n.kind == 'tdefine':
@@ -98,6 +111,8 @@ def ser(n, names):
         a = ' tal:repeat="(%s, %s) [(%d, %d)]"' % (n.binds[0][0], n.binds[1][0], n.binds[0][1], n.binds[1][1])
     elif n.kind == 'usemacro':
         return '<u metal:use-macro="template.macros[\'mac\']"/>'
+    elif n.kind == 'lambda':
+        a = ' tal:define="zz9 (lambda %s: %s)(7); zz8 sorted([3, 1], key=lambda %s: -%s)"' % (n.lam, n.lam, n.lam, n.lam)
     lead = '\n' if 'repeat' in n.kind else ''
     return lead + '<e%s>%s%s</e>' % (a, probe(names), ''.join(ser(k, names) + probe(names) for k in n.kids))
 
@@ -125,7 +140,7 @@ class Interp:
         parts = []
         for n_ in names or self.names:
             if n_ in env:
-                parts.append(str(env[n_]))
+                parts.append('' if env[n_] is None else str(env[n_]))
             else:
                 parts.append('B' if n_ in BUILTIN_NAMES else 'U')
         self.out.append('[' + '|'.join(parts) + ']')
@@ -276,7 +291,7 @@ def layer_probes(ctx, n, mscope):
         cnt = itertools.count(1)
         root = El('plain', [], [gen(rng, 0, names, cnt, set()) for _ in range(rng.randint(1, 2))])
         src = macro_src(names) + ser(root, names)
-        pre = {n_: 'P' + n_ for n_ in names if rng.random() < .4}
+        pre = {n_: ('P' + n_ if rng.random() < .8 else None) for n_ in names if rng.random() < .4}
         want = []
         for quirk in (False, True):
             it = Interp(names, dict(pre), quirk)
